@@ -57,8 +57,9 @@ FAMILIES = {
     "defclass": (["K", "[]", "[B]", "[:k 1]", "[#* b]", "\"doc\"", "1", "(do)", ":tp [T]", ":tp [None]", "None"], 4),
     "import": (["a", "a.b", "[x]", "[x :as y]", ":as", "b", "*", "[]", "[*]", ".", "..a", "(do)"], 3),
     "require": (["a", "a.b", "[x]", "[x :as y]", ":as", "b", "*", "[]", ":macros", ":readers", "[*]", "(do)"], 3),
-    "setv": (["a", "1", "[a b]", "(get a 1)", "a.b", "#* a", "(do)", "None", ":chain", "[a]", "[a #* b #* c]", "#^ int a"], 3),
-    "setx": (["a", "1", "[a b]", "a.b", "(do)", "None"], 2),
+    "setv": (["a", "1", "[a b]", "(get a 1)", "a.b", "#* a", "(do)", "None", ":chain", "[a]", "[a #* b #* c]", "#^ int a",
+              "True", "(if a (do (setv y 1) y) 2)", "(and (do (setv y 1) y) 2)"], 3),
+    "setx": (["a", "1", "[a b]", "a.b", "(do)", "None", "False", "(if a (do (setv y 1) y) 2)", "(when a (setv y 1) y)"], 2),
     "del": (["a", "[a #* b]", "#* a", "(get a 1)", "1", "(f)", "a.b", "(do)", "None"], 2),
     "global": (["a", "b", "1", "a.b", "None"], 2),
     "nonlocal": (["a", "b", "1", "a.b", "None"], 2),
